@@ -31,6 +31,7 @@ class Conn:
         self.eof_seen = asyncio.Event()     # the client closed its side
         self.closed = False
         self.half_closed = False
+        self.reset = False                  # the stream ended with a reset instead of an orderly end-of-stream
 
 
 class FakeDevice:
@@ -106,7 +107,10 @@ class FakeDevice:
                 else:
                     writer.write(action)
                     await writer.drain()
-        except (ConnectionError, asyncio.CancelledError):
+        except ConnectionError:
+            conn.reset = True
+            conn.eof_seen.set()
+        except asyncio.CancelledError:
             conn.eof_seen.set()
         finally:
             if not conn.closed:
